@@ -167,8 +167,14 @@ def check(run):
             if h == 'name' and t[0].name == 'stabilizer_expect':
                 bind.check_call(run, repo, f, c, t[0])
                 obs = f.posparams[1]
-                run.check(K.actual_texts(t[0], c) == ['self.gs', 'self.ps', '%s.gs' % obs, '%s.ps' % obs, 'self.r'],
-                          'R2.expect', f, c, 'list expectation must hand (self.gs, self.ps, obs.gs, obs.ps, self.r) to the kernel')
+                from ..names import itext
+                at = [itext(f, a) for a in K.actuals(t[0], c)]
+                # the list handed to the kernel is the observable itself, or (polynomial branch written out instead of recursing)
+                # the phase-free list PauliList(obs.gs): strings and phases of ONE list
+                bases = ('%s' % obs, 'PauliList(%s.gs)' % obs)
+                okx = len(at) == 5 and at[0] == 'self.gs' and at[1] == 'self.ps' and at[4] == 'self.r' and \
+                    any(at[2] == b + '.gs' and at[3] == b + '.ps' for b in bases)
+                run.check(okx, 'R2.expect', f, c, 'list expectation must hand (self.gs, self.ps, obs.gs, obs.ps, self.r) to the kernel (found %s)' % at)
         g = repo.func(rel, 'StabilizerState.get_prob')
         effect.check_pure(run, eff, g)
         kinds.check_function(run, repo, g)
